@@ -82,3 +82,41 @@ Proof.
     unfold scal in H. simpl in H. unfold mult in H. simpl in H.
     replace ((1 - -1) * / 2) with 1 in H by field. exact H.
 Qed.
+
+(* the cumulative distribution of the accepted zeta (used by the harness's KS test; cross-checked at sample points) *)
+Definition cdf (g z : R) : R :=
+  if Rle_dec z 0 then Fm g z - Fm g (-1) else (Fm g 0 - Fm g (-1)) + (Fp g z - Fp g 0).
+
+Lemma cdf_is_integral g z : g <> 0 -> -1 <= z <= 1 -> is_RInt (fun t => P t g) (-1) z (cdf g z).
+Proof.
+  intros Hg Hz. unfold cdf. destruct (Rle_dec z 0) as [Hle|Hgt].
+  - destruct (Req_dec z (-1)) as [->|Hne].
+    + replace (Fm g (-1) - Fm g (-1)) with 0 by ring. apply (is_RInt_point (fun t => P t g) (-1)).
+    + apply is_RInt_ext with (f := Pm g).
+      * intros t Ht. rewrite Rmin_left, Rmax_right in Ht by lra. symmetry. apply P_minus; [assumption|lra].
+      * apply (is_RInt_derive (Fm g) (Pm g)); intros; [apply Fm_derive|apply Pm_cont]; assumption.
+  - assert (0 < z) as Hp by lra.
+    assert (is_RInt (fun t => P t g) 0 z (Fp g z - Fp g 0)) as Hplus.
+    { apply is_RInt_ext with (f := Pp g).
+      - intros t Ht. rewrite Rmin_left, Rmax_right in Ht by lra. symmetry. apply P_plus; [assumption|lra].
+      - apply (is_RInt_derive (Fp g) (Pp g)); intros; [apply Fp_derive|apply Pp_cont]; assumption. }
+    pose proof (is_RInt_Chasles (fun t => P t g) (-1) 0 z _ _ (int_P_minus g Hg) Hplus) as H.
+    exact H.
+Qed.
+
+(* probability mass on the side the force points to (g > 0): 1/(1 - e^{-2g}) - 1/(2g) *)
+Lemma mass_along_force g : g <> 0 -> Fp g 1 - Fp g 0 = / (1 - exp (- 2 * g)) - / (2 * g).
+Proof.
+  intro Hg. unfold Fp. pose proof (D_nz g Hg) as Hd. unfold den in Hd.
+  replace (g * (2 * 1 - 1)) with g by ring. replace (g * (2 * 0 - 1)) with (- g) by ring.
+  replace (- 2 * g) with (- g + - g) by ring. rewrite exp_plus.
+  assert (exp g * exp (- g) = 1) as E by (rewrite <- exp_plus; replace (g + - g) with 0 by ring; apply exp_0).
+  set (a := exp g) in *. set (b := exp (- g)) in *.
+  assert (0 < a) by apply exp_pos. assert (0 < b) by apply exp_pos.
+  assert (1 - b * b <> 0) as N by (intro Q; apply Hd; nra).
+  assert (/ (1 - b * b) = a / (a - b)) as ->.
+  { apply Rmult_eq_reg_r with (r := (1 - b * b) * (a - b)); [|apply Rmult_integral_contrapositive_currified; assumption].
+    replace (/ (1 - b * b) * ((1 - b * b) * (a - b))) with (a - b) by (field; assumption).
+    replace (a / (a - b) * ((1 - b * b) * (a - b))) with (a * (1 - b * b)) by (field; assumption). nra. }
+  unfold den. fold a b. field. split; assumption.
+Qed.
